@@ -60,6 +60,17 @@ HARD["second-order"] = ("(this round) the analysis is broad and deep: it follows
     "widths, lengths in bytes vs characters, empty vs absent strings; (e) the command line: how input / output paths and siblings are determined. "
     "Do not rely on obfuscation that no maintainer would write.")
 
+HARD["feature-work"] = ("(this round) the analysis is broad and deep (helpers, closures, trait objects, tables, conversions, Display adaptors, small functions evaluated; a rule for each "
+    "earlier regression above and its close relatives). This round, the regression comes in as part of WELL-MEANT FEATURE WORK or a ROBUSTNESS FIX, the kind of pull request that gets merged: "
+    "(a) support for something the generator ignores or rejects today (`xs:all`, `xs:attributeGroup`, `xs:group`, `default=` / `fixed=` values, `nillable`, `xs:include`, `xs:annotation/appinfo`, "
+    "`xs:simpleContent`, `soap12:` bindings, faults, several `wsdl:part`s, `xs:anyAttribute`, `substitutionGroup`) implemented mostly right, where the new code path or the generalisation it needed "
+    "changes the result for inputs that used to work, or is itself wrong in a corner; (b) a tolerance fix (`trim()` of attribute values, case-insensitive comparison, accepting a missing attribute, "
+    "skipping a malformed component with a warning instead of failing, a retry, a fallback value, a cache, de-duplication of something that is not always a duplicate) that is too tolerant; "
+    "(c) a new CLI option or environment knob whose DEFAULT path no longer behaves as before; (d) nicer generated code (derives, doc comments, `#[serde]`-like attributes, builder / `new` functions, "
+    "`impl Display`, constants for enumeration values, `Default` impls) whose addition breaks the property in a corner; (e) a performance fix (memoised lookups, interned strings, parallel or lazy "
+    "reading, streaming output) with a stale-cache / ordering / partial-output corner. The patch may be up to 120 changed lines; the regression inside it is what counts. "
+    "Do not rely on obfuscation that no maintainer would write.")
+
 STYLES_EXTRA = {
     "S": "Techniques for this set (one main technique per patch): API-EVOLUTION refactorings that keep behaviour: (1) newtypes for the strings that are passed around (`struct XmlName(String)`, `struct ModName(String)`, `struct Prefix(String)`) with `Deref` / `AsRef<str>` / `Display` / `From`, used in one or two structs and adapted at the call sites; (2) replace a pair or triple of `bool` fields / parameters by a small enum (`Cardinality::{One, Optional, Many}`, `FieldKind::{Element, Attribute}`) with helper methods that give back the old booleans, keeping every decision the same; (3) a builder or constructor function for a struct that is now built with a struct literal in several places (`Field::new(..).optional(..).repeated(..)`), or the reverse; (4) split a trait or add a small trait (`trait HasXmlName { fn xml_name(&self) -> Option<&str> }`, `trait Emit`) and move free functions into impls / default methods, called statically or through `&dyn`; (5) change a function's return shape without changing what callers observe: `Option<Result<T>>` <-> `Result<Option<T>>` with `transpose`, `Vec<T>` <-> `impl Iterator<Item = T>` collected by the caller, out-parameters (`&mut Vec<Field>`) <-> returned values appended by the caller in the same order; (6) move code between modules / files (a `naming` module for the case and keyword functions, a `lookup` module for the component search, a `templates` module for writer functions) with re-exports so that paths used elsewhere keep working; (7) the emitted helper module helpers_content.rs: introduce a small private struct or trait there (e.g. `struct Bound<'a>(&'static str, Option<i32>, fn(i128, i128) -> bool)`, a `trait Facet`) and route the existing checks through it with identical decisions and messages, or make `send_soap_request*` share code through a private generic function.",
     "T": "Techniques for this set (one main technique per patch): DATA-FLOW RESHAPING that keeps behaviour: (1) compute values earlier or later where that is equivalent (hoist pure computations out of loops and branches, sink them into the only branch that uses them), introduce or remove intermediate `let`s, shadowing, destructuring of `self` / parameters at the top of a function; (2) pass a small context struct or tuple instead of several parameters, or explode such a struct into parameters; reorder parameters; turn methods into associated / free functions and back; (3) merge two passes over a collection into one pass that fills two results, or split one pass into two, where the effects of the rounds are independent; replace index loops by `zip` / `enumerate` / `windows` and back; (4) replace `match` on `Option` / `Result` by `?` in a helper function or closure that returns `Option` / `Result`, `let .. else`, `map_or_else`, `ok_or_else(..)?.`, `and_then` chains - and at least one patch in the reverse direction (chains unfolded into explicit `match` with early returns); (5) strings: build with `format!` vs `push_str` vs `write!` into a `String` vs `concat` / `join` of parts vs `std::fmt::Display` impl on a small struct; templates split differently into `write!` calls (several holes per call, one call per line, one call for a whole item); (6) collections: `Vec` + `contains` <-> `BTreeSet` where only membership is asked, `Vec<(K, V)>` <-> map with keyed lookup only, sort-free dedup in insertion order kept as it is; pre-collect into a `Vec` vs iterate lazily where no side effect in between depends on it; (7) in zeep/src/main.rs and zeep-lib/src/utils.rs: the same kinds of reshaping for argument handling, path computations and the order of purely local steps, keeping which files are read / written, when, and what is printed.",
